@@ -198,6 +198,12 @@ pub fn check_case(c: &Case, rep: &mut Report) {
                     rep.hist("went-on-after-a-refused-frame");
                     continue;
                 }
+                // the same holds for a message refused for its size before anything was emitted: the application may
+                // try it again, or send something else
+                if exp.is_none() && got.is_empty() {
+                    rep.hist("went-on-after-a-refused-oversize-message");
+                    continue;
+                }
                 break;
             }
         }
@@ -303,6 +309,35 @@ pub fn make_case(class: u64, idx: u64, seed: u64, quick: bool) -> Case {
             }
             Case { level, lens: vec![len], caps, fault, fault_msg: 0, class: "fault-sampled", seed }
         }
+        5 => {
+            // refused sizes inside a sequence on one client: the same refused size again (a retry), another refused size,
+            // sizes on both sides of the limit, ordinary messages before and after
+            let level = LEVELS[1 + (idx % 2) as usize];
+            let limit = if level == "tpkt" { 65531usize } else { 65528 };
+            let over = |r: &mut Rng| match r.below(5) {
+                0 => limit + 1,
+                1 => limit + 1 + r.below(8) as usize,
+                2 => 65536,
+                3 => 70000,
+                _ => r.range(limit as u64 + 1, 70000) as usize,
+            };
+            let small = |r: &mut Rng| match r.below(4) {
+                0 => 0,
+                1 => limit,
+                2 => r.range(0, 300) as usize,
+                _ => limit - r.below(4) as usize,
+            };
+            let a = over(&mut r);
+            let lens = match (idx / 2) % 6 {
+                0 => vec![a, a],
+                1 => vec![small(&mut r), a, a, small(&mut r)],
+                2 => vec![a, over(&mut r), a],
+                3 => vec![a, small(&mut r), a, a],
+                4 => vec![a, a, a, small(&mut r)],
+                _ => vec![small(&mut r), a, small(&mut r), a, over(&mut r), small(&mut r)],
+            };
+            Case { level, lens, caps: caps_for(&mut r, idx / 12), fault: Fault::None, fault_msg: 0, class: "refused-sizes-in-sequence", seed }
+        }
         4 => {
             // records of the message model instead of byte blocks, several on one client
             let level = LEVELS[(idx % 3) as usize];
@@ -346,6 +381,7 @@ pub fn run(cfg: &Cfg) -> Report {
         (2, cfg.n(20_000, 3_000_000)),
         (3, cfg.n(400_000, 50_000_000)),
         (4, cfg.n(60_000, 3_000_000)),
+        (5, cfg.n(1_200, 100_000)),
     ];
     for (class, n) in plan {
         if !cfg.wants(class) {
